@@ -4,6 +4,7 @@ import (
 	"bytes"
 	"context"
 	"crypto/ed25519"
+	"fmt"
 	"math/rand"
 	"net"
 	"time"
@@ -24,6 +25,174 @@ type netNode struct {
 	h    *H
 	addr *net.UDPAddr
 	name string
+	rt   *sim.Trace       // this node's routing-table trace (Trace_RoutingTable.tla)
+	out  map[string]bool  // own queries not yet answered: "dst|t"
+	qs   map[string]qInfo // inbound queries awaiting their reply: "src|t"
+}
+
+type qInfo struct {
+	method string
+	target krpc.ID
+	w4, w6 bool
+}
+
+type rtSender struct {
+	Id   string `json:"id"`
+	Addr string `json:"addr"`
+	B    int    `json:"b"`
+	Sec  bool   `json:"sec"`
+	Fam  int    `json:"fam"`
+}
+
+func rtClass(ms int64) string {
+	switch {
+	case ms < 0:
+		return "never"
+	case ms < 900_000:
+		return "recent"
+	}
+	return "old"
+}
+
+// emitTable logs one table event of this node with the snapshot after it (same schema as cmd/rt).
+func (nd *netNode) emitTable(seg int, kind string, s rtSender, ro, matched bool) {
+	srv, root := nd.h.srv, nd.h.own
+	sl := []sim.M{}
+	for _, n := range srv.VerifTableSnapshot() {
+		b := sim.SharedPrefix(n.Id, root)
+		if b == 160 {
+			b = -1
+		}
+		ua := sim.MustUDP(n.Addr)
+		sl = append(sl, sim.M{"id": sim.Hex(n.Id[:]), "addr": n.Addr, "ab": n.Bucket, "b": b, "q": rtClass(n.QAge), "r": rtClass(n.RAge),
+			"failed": n.Failed, "good": n.Good, "bad": n.Bad, "sec": dht.NodeIdSecure(n.Id, ua.IP), "fam": famOf(ua.IP)})
+	}
+	nodes := [][]string{}
+	for _, ni := range srv.Nodes() {
+		nodes = append(nodes, []string{sim.Hex(ni.ID[:]), ni.Addr.UDP().String()})
+	}
+	st := srv.Stats()
+	nd.rt.Emit(sim.M{"seg": seg, "e": kind, "s": s, "ro": ro, "matched": matched, "drop": false, "snap": sl, "numNodes": srv.NumNodes(),
+		"statsNodes": st.Nodes, "goodNodes": st.GoodNodes, "nodes": nodes, "addrIndex": srv.VerifAddrIndexSize()})
+}
+
+// tableEvent: the routing-table view of a datagram delivered to this node.
+func (nd *netNode) tableEvent(seg int, src *net.UDPAddr, b []byte) (needAnswer string) {
+	d, err := sim.DecodeDict(b)
+	if err != nil {
+		return ""
+	}
+	y, _ := d.Str("y")
+	t, _ := d.Str("t")
+	s := rtSender{Addr: src.String(), Fam: famOf(src.IP), Sec: true}
+	inner := d.Dict("a")
+	if string(y) == "r" {
+		inner = d.Dict("r")
+	}
+	if id, ok := inner.Str("id"); ok && len(id) == 20 && string(y) != "e" {
+		var kid krpc.ID
+		copy(kid[:], id)
+		s.Id = sim.Hex(id)
+		s.B = sim.SharedPrefix(kid, nd.h.own)
+		if s.B == 160 {
+			s.B = -1
+		}
+		s.Sec = dht.NodeIdSecure(kid, src.IP)
+	}
+	ro := false
+	if v, ok := d.Int("ro"); ok && v == 1 {
+		ro = true
+	}
+	key := src.String() + "|" + string(t)
+	switch string(y) {
+	case "q":
+		q, _ := d.Str("q")
+		nd.emitTable(seg, "RecvQuery", s, ro, false)
+		if m := string(q); m == "find_node" || m == "get_peers" || m == "get" {
+			qi := qInfo{method: m, w4: famOf(src.IP) == 4, w6: famOf(src.IP) == 6}
+			f := "target"
+			if m == "get_peers" {
+				f = "info_hash"
+			}
+			if tg, ok := inner.Str(f); ok && len(tg) == 20 {
+				copy(qi.target[:], tg)
+			}
+			if wl, ok := inner.List("want"); ok && len(wl) > 0 {
+				qi.w4, qi.w6 = false, false
+				for _, w := range wl {
+					if sw, ok := w.([]byte); ok {
+						qi.w4 = qi.w4 || string(sw) == "n4"
+						qi.w6 = qi.w6 || string(sw) == "n6"
+					}
+				}
+			}
+			nd.qs[key] = qi
+			return key
+		}
+	case "r":
+		m := nd.out[key]
+		delete(nd.out, key)
+		nd.emitTable(seg, "RecvResp", s, ro, m)
+	case "e":
+		m := nd.out[key]
+		delete(nd.out, key)
+		nd.emitTable(seg, "RecvErr", s, false, m)
+	}
+	return ""
+}
+
+// answer logs the node lists of the reply this node computed for the query `key` (its table has not changed since).
+func (nd *netNode) answer(seg int, key string) {
+	qi := nd.qs[key]
+	delete(nd.qs, key)
+	deadline := time.Now().Add(60 * time.Second)
+	for time.Now().Before(deadline) {
+		for _, of := range nd.h.conn.Peek() {
+			d, err := sim.DecodeDict(of.B)
+			if err != nil || of.To == nil {
+				continue
+			}
+			y, _ := d.Str("y")
+			t, _ := d.Str("t")
+			if string(y) != "r" || of.To.String()+"|"+string(t) != key {
+				continue
+			}
+			rd := d.Dict("r")
+			if _, hasValues := rd.List("values"); hasValues {
+				// a get_peers reply that carries peers: whether node lists accompany values is left open
+				nd.rt.Emit(sim.M{"seg": seg, "e": "NoReply", "method": qi.method + "+values"})
+				return
+			}
+			tb := sim.SharedPrefix(qi.target, nd.h.own)
+			if tb == 160 {
+				tb = 159
+			}
+			ans := sim.M{"seg": seg, "e": "Answer", "method": qi.method, "tb": tb, "want4": qi.w4, "want6": qi.w6, "nodes": [][]string{}, "nodes6": [][]string{}}
+			for _, f := range []struct {
+				key   string
+				ipLen int
+				has   string
+			}{{"nodes", 4, "has4"}, {"nodes6", 16, "has6"}} {
+				raw, has := rd.Str(f.key)
+				ans[f.has] = has
+				l := [][]string{}
+				if has {
+					ns, ok := sim.CompactNodes(raw, f.ipLen)
+					if !ok {
+						l = append(l, []string{"malformed", fmt.Sprint(len(raw))})
+					}
+					for _, n := range ns {
+						l = append(l, []string{n[0], n[1]})
+					}
+				}
+				ans[f.key] = l
+			}
+			nd.rt.Emit(ans)
+			return
+		}
+		time.Sleep(50 * time.Microsecond)
+	}
+	nd.rt.Emit(sim.M{"seg": seg, "e": "NoReply", "method": qi.method})
 }
 
 // inFromBytes logs the In event of a datagram built by somebody else (another real node).
@@ -73,6 +242,14 @@ func (h *H) inFromBytes(node string, src *net.UDPAddr, b []byte) {
 	h.tr.Emit(ev)
 }
 
+var rtTraces = map[string]*sim.Trace{}
+
+func closeRtTraces() {
+	for _, t := range rtTraces {
+		t.Close()
+	}
+}
+
 func scenNet(rng *rand.Rand, tr *sim.Trace, seg int, events int) {
 	n := 3 + rng.Intn(2)
 	var nodes []*netNode
@@ -90,7 +267,17 @@ func scenNet(rng *rand.Rand, tr *sim.Trace, seg int, events int) {
 			o.startingNodes = func() ([]dht.Addr, error) { return nil, nil }
 		}
 		h := newHAt(rng, tr, seg, o, a.String(), string(rune('A'+i)))
-		nd := &netNode{h, a, string(rune('A' + i))}
+		nd := &netNode{h: h, addr: a, name: string(rune('A' + i)), out: map[string]bool{}, qs: map[string]qInfo{}}
+		if rtTraces[nd.name] == nil {
+			t, err := sim.NewTrace(fmt.Sprintf("%s.rt%s", tr.Path, nd.name))
+			if err != nil {
+				panic(err)
+			}
+			t.Sync = true
+			rtTraces[nd.name] = t
+		}
+		nd.rt = rtTraces[nd.name]
+		nd.rt.Emit(sim.M{"seg": seg, "e": "Start", "root": sim.Hex(h.own[:]), "nosec": true})
 		nodes = append(nodes, nd)
 		byAddr[a.String()] = nd
 	}
@@ -109,11 +296,18 @@ func scenNet(rng *rand.Rand, tr *sim.Trace, seg int, events int) {
 				nd := nodes[i]
 				for _, of := range nd.h.conn.TakeAll() {
 					nd.h.node = nd.name
-					nd.h.logOut(of.Out, of.Failed)
+					od := nd.h.logOut(of.Out, of.Failed)
+					if y, _ := od.Str("y"); string(y) == "q" && !of.Failed {
+						t, _ := od.Str("t")
+						nd.out[of.To.String()+"|"+string(t)] = true
+					}
 					if dst, ok := byAddr[of.To.String()]; ok && !of.Failed {
 						dst.h.inFromBytes(dst.name, nd.addr, of.B)
 						if !dst.h.conn.Inject(of.B, nd.addr, 60*time.Second) {
 							fail("node %s did not take a datagram", dst.name)
+						}
+						if key := dst.tableEvent(seg, nd.addr, of.B); key != "" {
+							dst.answer(seg, key)
 						}
 						if bytes.Contains(of.B, []byte("13:announce_peer")) || bytes.Contains(of.B, []byte("1:q3:put")) {
 							// store effects happen from goroutines: let them finish and log them before anything
